@@ -4,24 +4,31 @@ from vlib import common as C
 from vlib.simlib import SIM_WRAPS
 
 MANIFEST = {
-    "text": "Lean theorems over ALL histories (any sequence of application sends, datagram arrivals, DTLS and CoAP timer expiries, "
-            "disconnects, release, each with ANY answers of the TLS library) of a transcription M of libcoap's DTLS session gating "
-            "(coap_send_pdu gate, delay queue, coap_session_connected / disconnected_lkd / free, coap_dtls_send / receive / hello / "
-            "handle_timeout, do_gnutls_handshake, layer table, ClientHello pre-filter) with GnuTLS as an oracle: no handler call and no "
-            "PDU written before the oracle reported a completed handshake (no_handler_before_hsOk, nothing_queued_written_before_"
-            "established, client_life_gated, server_life_gated), every write of a DTLS session goes through coap_dtls_send "
-            "(no_cleartext_on_dtls_session), ESTABLISHED only after the oracle's success (failure_never_establishes), cleartext CoAP "
-            "at the DTLS endpoint creates no session and no output (cleartext_coap_at_dtls_endpoint_dropped); exact step theorems for "
-            "the failure path (one NACK per queued CON, queues empty), release and the in-order flush.  M is tied to the compiled code "
-            "by exact trace equality on scenarios run with the REAL GnuTLS on both sides (virtual clock for libcoap and GnuTLS, scripted "
-            "wire with loss/duplication, cleartext injection), the oracle's answers being observed through wrapped gnutls_* calls and "
-            "replayed into M; the property is also read off the implementation's own output and the wire is scanned for anything that is "
-            "not a DTLS record; the observed handshake verdict is judged against a credential specification S.",
+    "text": "Lean theorems over ALL histories (any sequence of application sends, datagram arrivals / TCP connect completions, socket "
+            "reads and writes, DTLS and CoAP timer expiries, disconnects, release, each with ANY answers of the TLS library) of a "
+            "transcription M of libcoap's DTLS and TLS session gating (coap_send_pdu gate, delay queue, coap_session_connected / "
+            "disconnected_lkd / free, coap_dtls_send / receive / hello / handle_timeout, coap_tls_establish / write / read, "
+            "coap_session_send_csm and the CSM that opens the delay queue on a reliable transport, coap_read_session, "
+            "do_gnutls_handshake, layer table, ClientHello pre-filter) with GnuTLS as an oracle: no handler call and no PDU written "
+            "before the oracle reported a completed handshake (no_handler_before_hsOk, nothing_queued_written_before_established, "
+            "client_life_gated, server_life_gated and their tls_* instances for Proto.tls), every write of a (D)TLS session goes "
+            "through coap_dtls_send / coap_tls_write (no_cleartext_on_dtls_session), ESTABLISHED only after the oracle's success "
+            "(failure_never_establishes), cleartext CoAP at the DTLS endpoint creates no session and no output "
+            "(cleartext_coap_at_dtls_endpoint_dropped); exact step theorems for the failure path on every protocol (one NACK per "
+            "queued CON, queues empty: queued_con_one_nack_on_failure_partial, tls_queued_con_one_nack_on_failure), release and the "
+            "in-order flush (DTLS: NSTART prefix; TLS: the whole queue).  M is tied to the compiled code by exact trace equality on "
+            "scenarios run with the REAL GnuTLS on both sides: DTLS on a virtual clock and a scripted wire with loss / duplication / "
+            "cleartext injection; TLS over REAL loopback TCP sockets (server and client context in one process, one epoll event per "
+            "step, five interleavings of connect / accept / first coap_send incl. the coap_client_delay_first wait); the oracle's "
+            "answers are observed through wrapped gnutls_* calls and replayed into M; the property is also read off the "
+            "implementation's own output and everything written to the wire is scanned for bytes outside (D)TLS records; the "
+            "observed handshake verdict is judged against a credential specification S.",
     "note": "Partial: the handshake and record protection are GnuTLS's (oracle; trusted to report success only when both sides accepted "
             "the credentials).  'Exactly one NACK per queued CON' and 'delivered in order exactly once' are proved for the failure / "
-            "release / flush step exactly (_partial), not as whole-trace theorems; the python oracle checks them on every scenario.  TLS "
-            "over TCP: model of gate + layer table only, no differential run (datagram-only simulation core).  Trusted: Lean kernel (+ "
-            "propext, Classical.choice, Quot.sound), harness + wraps + oracle, the hand transcription M (checked on the scenarios run).",
+            "release / flush step exactly (_partial), not as whole-trace theorems; the python oracle checks them on every scenario.  TLS: "
+            "one CoAP message per TLS record (what libcoap writes); stream reassembly across records is C05's.  The TLS run uses real "
+            "time and real sockets: its interleavings are the five scripted ones, not arbitrary.  Trusted: Lean kernel (+ propext, "
+            "Classical.choice, Quot.sound), harnesses + wraps + oracle, the hand transcription M (checked on the scenarios run).",
     "design_ref": "DESIGN.md §4 C19, design/C19.md",
 }
 LEAN_MODULES = ["CoapVerif.Props.C19"]
@@ -30,7 +37,10 @@ REQUIRED_THEOREMS = ["no_handler_before_hsOk", "no_cleartext_on_dtls_session", "
                      "queued_con_one_nack_on_release", "queued_delivered_in_order_once_on_success_partial",
                      "send_before_established_is_held", "cleartext_coap_at_dtls_endpoint_dropped", "dgram_without_tls_ignored",
                      "nothing_queued_written_before_established", "failure_never_establishes", "client_life_gated",
-                     "server_life_gated", "mark_iff_oracle_ok"]
+                     "server_life_gated", "mark_iff_oracle_ok",
+                     "tls_no_handler_before_hsOk", "tls_nothing_written_before_hsOk", "tls_client_life_gated", "tls_server_life_gated",
+                     "tls_queued_con_one_nack_on_failure", "tls_queued_con_one_nack_on_release",
+                     "tls_queued_delivered_in_order_once_on_success", "queued_con_one_nack_on_release_any"]
 RULE = ("one line = one whole scenario with the REAL GnuTLS on both sides in one process (virtual clock for libcoap and GnuTLS, "
         "scripted wire): a server context with a DTLS endpoint configured by coap_context_set_psk2 (default key, identity table, "
         "hint, SNI table) and a client session from coap_new_client_session_psk2 (identity, key, hint callback, SNI); credential "
@@ -39,7 +49,14 @@ RULE = ("one line = one whole scenario with the REAL GnuTLS on both sides in one
         "after the session is created; per datagram deliver / drop / duplicate during and after the handshake; cleartext CoAP "
         "injected at the DTLS endpoint from the client's address and from another one and a forged cleartext response injected "
         "at the client's socket, before / during / after the handshake; early release of the session; the server's idle "
-        "timeout.  non-trivial = distinct scenario in which at least one request was queued and at least 3 datagrams were written")
+        "timeout.  `tls` lines: the same over TLS on REAL loopback TCP sockets (harness/tls.c: server context with a TLS endpoint on "
+        "127.0.0.1 port 0 and a client context in one process, coap_io_do_epoll driven one event at a time, alternating, until "
+        "nothing is ready and no written byte is unacknowledged; wall-clock watchdog): every credential configuration x five "
+        "interleavings (connect() completing at once = requests queued in HANDSHAKE state; connect in progress = the first "
+        "coap_send waits in coap_client_delay_first with both contexts or only the client running; server accepting before or "
+        "after the ClientHello is there) x queues of 0..3 CON/NON, early release; every byte written to a TCP socket must lie in "
+        "a TLS record (type 20-23, version 3.x) written from inside a gnutls_* call.  non-trivial = distinct scenario in which at "
+        "least one request was queued and at least 3 datagrams / TCP writes were made")
 TRUSTED_BASE = ["Lean 4.33 kernel; axioms allowed: propext, Classical.choice, Quot.sound (audited per theorem each run)",
                 "GnuTLS (the ORACLE): gnutls_handshake reports success only when both sides accepted the credentials; record "
                 "protection; its answers are observed per case through wrapped gnutls_* calls and replayed into M",
@@ -47,18 +64,28 @@ TRUSTED_BASE = ["Lean 4.33 kernel; axioms allowed: propext, Classical.choice, Qu
                 "datagram network, --wrap of the GnuTLS entry points libcoap uses and of coap_dtls_send / "
                 "coap_dtls_handle_timeout / coap_retransmit), harness/dtls_pipe.py, generators and the python oracle that "
                 "reads the implementation's own output",
-                "M (CoapVerif/Model/TlsGate.lean) is a hand transcription of libcoap's DTLS session gating; checked against the "
-                "compiled code only on the scenarios run"]
+                "harness/tls.c (real loopback TCP, real time; --wrap of connect (conn=now: the TCP handshake completes inside the "
+                "call; TCP_NODELAY), coap_io_process_lkd (the wait of coap_client_delay_first runs the harness' loop and is told "
+                "6 s have passed once nothing moves), coap_tls_write, coap_netif_strm_write (the sniffer), coap_free_type and the "
+                "GnuTLS entry points)",
+                "M (CoapVerif/Model/TlsGate.lean) is a hand transcription of libcoap's DTLS and TLS session gating; checked against "
+                "the compiled code only on the scenarios run"]
 ASSUMPTIONS = ["partial: the handshake itself and record protection are GnuTLS's (oracle); what is proved is libcoap's gating given "
                "the oracle's answers",
-               "partial: TLS over TCP is covered by the model's gate and layer table only (the simulation core is datagram-only; "
-               "no differential run uses TLS), SPEC DECISION D19c",
+               "partial: TLS over TCP is modelled for one CoAP message per TLS record (SPEC DECISION D19c); the TLS run explores five "
+               "scripted interleavings on real sockets, not arbitrary loss / reordering (TCP has none) and not arbitrary timing",
+               "TLS: coap_send turns every PDU of a reliable session into CON, so a request submitted as NON is NACKed like a CON on "
+               "failure (at most once: D19b'); a request coap_send refused synchronously (socket already closed) is not queued; a "
+               "request already WRITTEN on an established TLS session is not tracked (reliable transport): its fate is C05/C06's",
                "'exactly one NACK' is about requests held in the delay queue (D19a); a queued NON is dropped silently (D19b)",
                "dispatch is modelled for the messages a GET exchange produces (request, piggy-backed / NON response, empty ACK, RST)",
                "compiled Lean definitions agree with the kernel's reading of them"]
 SPEC_DECISIONS = ["D19a exactly-one-NACK is about requests queued before establishment; in-flight CONs at teardown are C06/C07's",
                   "D19b a queued Non-confirmable request is dropped silently on failure",
-                  "D19c TLS/TCP only as far as gate + layer table",
+                  "D19c TLS/TCP: one CoAP message per TLS record; reassembly across records is C05's",
+                  "D19b' on TLS a request submitted as NON has become CON inside coap_send and may be NACKed (at most once)",
+                  "D19f TLS: NACK reasons accepted for a queued request are TLS_FAILED, TLS_LAYER_FAILED and NOT_DELIVERABLE "
+                  "(coap_read_session / coap_session_mfree use the latter on reliable transports)",
                   "D19d no client session with an empty key/identity; an empty server key accepts nobody",
                   "D19e absent callbacks accept everything; an SNI table does not know names outside it"]
 RUN_KW = {"timeout": 900}
